@@ -275,11 +275,11 @@ func Forall(bs []BVar, body *Term, pats ...[]*Term) *Term {
 	}
 	return &Term{Kind: KQuant, Op: "forall", Bound: bs, Args: []*Term{body}, Sort: SBool, Pats: pats}
 }
-func Exists(bs []BVar, body *Term) *Term {
+func Exists(bs []BVar, body *Term, pats ...[]*Term) *Term {
 	if len(bs) == 0 || body.Kind == KBoolLit {
 		return body
 	}
-	return &Term{Kind: KQuant, Op: "exists", Bound: bs, Args: []*Term{body}, Sort: SBool}
+	return &Term{Kind: KQuant, Op: "exists", Bound: bs, Args: []*Term{body}, Sort: SBool, Pats: pats}
 }
 
 func smtString(s string) string {
